@@ -113,7 +113,7 @@ fn warm_up() {
     // many connections of every kind (the generators branch a lot: header sets, language lists, hostile blocks, ...),
     // with logging on so that every log call site is registered too
     logsim::set(true);
-    let kinds = [ConnKind::Http1, ConnKind::Http2, ConnKind::Http2Hostile, ConnKind::Tls, ConnKind::TcpOnly, ConnKind::Garbage, ConnKind::TlsThenHttpResponse, ConnKind::Http1Reversed];
+    let kinds = [ConnKind::Http1, ConnKind::Http2, ConnKind::Http2Hostile, ConnKind::Tls, ConnKind::TcpOnly, ConnKind::Garbage, ConnKind::TlsThenHttpResponse, ConnKind::Http1Reversed, ConnKind::TlsReversed];
     for round in 0..24u16 {
         for (i, ck) in kinds.iter().enumerate() {
             let c = conn::build(&mut r, *ck, pkt::Endpoint::v4(10, 250, (round % 250) as u8, 1, 40000 + i as u16), pkt::Endpoint::v4(10, 250, 0, 2, 80), &o);
@@ -140,7 +140,12 @@ fn warm_up() {
 fn main() {
     runner::install_panic_hook();
     logsim::install();
-    warm_up();
+    // (a change to the code under test may make the warm-up traffic panic; that is for the runs to find and report,
+    // not a reason for the engine to die before the batch starts)
+    let hook = std::panic::take_hook();
+    std::panic::set_hook(Box::new(|_| {}));
+    let _ = std::panic::catch_unwind(warm_up);
+    std::panic::set_hook(hook);
     let args: Vec<String> = std::env::args().collect();
     let cmd = args.get(1).map(|s| s.as_str()).unwrap_or("");
     if cmd == "sentinels" {
